@@ -81,13 +81,22 @@ impl From<&CfgError> for SeverityLevel {
     }
 }
 
+/// The label the error is located at: the first one by position (then by name), which does
+/// not depend on the iteration order of the set.
+fn first_label(labels: &HashSet<LabelStringToken>) -> &LabelStringToken {
+    labels
+        .iter()
+        .min_by_key(|label| (label.range(), label.to_string()))
+        .unwrap()
+}
+
 impl DiagnosticLocation for CfgError {
     fn file(&self) -> uuid::Uuid {
         match self {
             CfgError::MultipleLabelsForReturn(node, _) | CfgError::NoLabelForReturn(node) => {
                 node.file()
             }
-            CfgError::LabelsNotDefined(labels) => labels.iter().next().unwrap().file(),
+            CfgError::LabelsNotDefined(labels) => first_label(labels).file(),
             CfgError::DuplicateLabel(label) => label.file(),
             CfgError::UnexpectedError | CfgError::AssertionError => uuid::Uuid::nil(),
         }
@@ -98,7 +107,7 @@ impl DiagnosticLocation for CfgError {
             CfgError::MultipleLabelsForReturn(node, _) | CfgError::NoLabelForReturn(node) => {
                 node.range()
             }
-            CfgError::LabelsNotDefined(labels) => labels.iter().next().unwrap().range(),
+            CfgError::LabelsNotDefined(labels) => first_label(labels).range(),
             CfgError::DuplicateLabel(label) => label.range(),
             CfgError::UnexpectedError | CfgError::AssertionError => crate::parser::Range::default(),
         }
@@ -109,7 +118,7 @@ impl DiagnosticLocation for CfgError {
             CfgError::MultipleLabelsForReturn(node, _) | CfgError::NoLabelForReturn(node) => {
                 node.raw_text()
             }
-            CfgError::LabelsNotDefined(labels) => labels.iter().next().unwrap().raw_text(),
+            CfgError::LabelsNotDefined(labels) => first_label(labels).raw_text(),
             CfgError::DuplicateLabel(label) => label.raw_text(),
             CfgError::UnexpectedError | CfgError::AssertionError => String::new(),
         }
